@@ -637,14 +637,15 @@ class Interp(OpsMixin, BuiltinsMixin):
             try:
                 t = self.eval(s.test, frame)
                 tv = self.static_truth(t)
+                if tv is True and self.static_truth(t, use_facts=False) is None:
+                    tv = None      # true only by a path fact about a dynamic value: summarise, do not unroll
             except _Undetermined:
                 tv = None
             finally:
                 self.no_decide -= 1
             if tv is None:
-                if n == 0:
-                    return self.summarise_loop(s, frame, test=s.test)
-                raise AnalysisError("loop-test-became-dynamic", frame.where(s))
+                # (after n iterations decided by constants / path facts) the rest is summarised
+                return self.summarise_loop(s, frame, test=s.test)
             if not tv:
                 self.exec_block(s.orelse, frame)
                 return
@@ -790,6 +791,7 @@ class Interp(OpsMixin, BuiltinsMixin):
         if len(self.callstack) > self.MAX_DEPTH:
             raise AnalysisError("call-depth", f.qualname)
         if sum(1 for q, _ in self.callstack if q == f.qualname) >= 3:
+            self.event("recursion", func=f.qualname)
             return Unknown("recursion %s" % f.qualname)
         a = f.node.args
         locs = {}
